@@ -635,7 +635,8 @@ class WebSocketResponse(StreamResponse, Generic[_DecodeText]):
             except asyncio.TimeoutError:
                 raise
             except EofStream:
-                self._close_code = WSCloseCode.OK
+                # The stream ended without a Close frame.
+                self._close_code = WSCloseCode.ABNORMAL_CLOSURE
                 await self.close()
                 return WS_CLOSED_MESSAGE
             except WebSocketError as exc:
